@@ -558,7 +558,9 @@ class FullEngine(Engine):
                 st.pc += [th.Prefix(t.keys(cur), t.keys(R)), th.Nodup(t.keys(R)) == And(th.Nodup(t.keys(cur)), BoolVal(True)) if False else BoolVal(True),
                           ForAll([x], th.Has(t.keys(R), x) == Or(th.Has(t.keys(cur), x), th.Has(t.keys(ot), x)), patterns=[th.Has(t.keys(R), x)]),
                           ForAll([x], t.get(R, x) == If(th.Has(t.keys(ot), x), t.get(ot, x), t.get(cur, x)), patterns=[t.get(R, x)]),
-                          Implies(And(th.Nodup(t.keys(cur)), th.Nodup(t.keys(ot))), th.Nodup(t.keys(R)))]
+                          Implies(And(th.Nodup(t.keys(cur)), th.Nodup(t.keys(ot))), th.Nodup(t.keys(R))),
+                          # no new key unless `o` brings one (witness W)
+                          (lambda W: Or(t.keys(R) == t.keys(cur), And(th.Has(t.keys(ot), W), Not(th.Has(t.keys(cur), W)))))(FreshConst(t.k.sort(), 'newkey'))]
                 self.write_path(st, recv.root, recv.path, R); self.escape(st, o, 'dict.update'); return PNone()
         if m in ('items', 'keys', 'values'):
             raise Unsupported('dict.%s() outside an iteration' % m)
